@@ -24,6 +24,7 @@ type Flags struct {
 	TrySeparate     bool // try / catch / finally blocks are three sibling scopes (else one shared)
 	FinallyOnAbrupt bool // finally also runs when try body or catch block is left abruptly (return/break/continue/error)
 	DeferErrLast    bool // of several failing deferred calls the last one run supplies the error (else the first)
+	StrayControlNoop bool // a break/continue with no enclosing loop inside the function just ends the call (else it is a run error of the call); either way it never reaches the caller's loop
 
 	// finding flags — deviations from the statements, listed in known_findings.json
 	TryCatchesControl bool // return/break/continue inside a try body are diverted into the catch block
@@ -328,6 +329,15 @@ func (in *Interp) stmt(s gen.Stmt, sc *Scope, fr *frame) result {
 		}
 		return result{c: cNormal, v: poison}
 
+	case *gen.MapItemAssign:
+		// v, ok = m[k]: the index expression is evaluated once; the values bound are not judged here
+		if _, err := in.expr(s.X, sc, fr); err != nil {
+			return result{c: cError, err: err}
+		}
+		sc.assign(s.V, poison)
+		sc.assign(s.Ok, poison)
+		return result{c: cNormal, v: poison}
+
 	case *gen.If:
 		v, err := in.expr(s.Cond, sc, fr)
 		if err != nil {
@@ -510,8 +520,9 @@ func (in *Interp) stmt(s gen.Stmt, sc *Scope, fr *frame) result {
 		switch v := v.(type) {
 		case string:
 			return result{c: cError, err: &ErrVal{Thrown: true, Text: v}}
-		case int64:
-			return result{c: cError, err: &ErrVal{Thrown: true, Text: strconv.FormatInt(v, 10)}}
+		case *ErrVal:
+			// rethrow of a caught error: the same error goes on
+			return result{c: cError, err: &ErrVal{Thrown: v.Thrown, Text: v.Text}}
 		}
 		unspec("throw of %T", v)
 
@@ -1024,6 +1035,10 @@ func binop(op string, l, r Value) (Value, *ErrVal) {
 			return nil, rtErr("integer divide by zero")
 		}
 		return li % ri, nil
+	case "|":
+		return li | ri, nil
+	case "&":
+		return li & ri, nil
 	case "<":
 		return li < ri, nil
 	case "<=":
@@ -1169,6 +1184,11 @@ func convertible(v Value, t string) *ErrVal {
 	switch t {
 	case "any":
 		return nil
+	case "func":
+		if _, ok := v.(*Closure); ok {
+			return nil
+		}
+		unspec("non-closure passed as callback")
 	case "string":
 		switch v.(type) {
 		case string:
@@ -1214,7 +1234,12 @@ func (in *Interp) invoke(fn Value, args []Value) (Value, *ErrVal) {
 		case cError:
 			return nil, r.err
 		}
-		unspec("break/continue leaving a function")
+		// break/continue with no enclosing loop in this function: it acts on "the
+		// innermost enclosing loop only", so it must not reach a loop of the caller
+		if in.fl.StrayControlNoop {
+			return poison, nil
+		}
+		return nil, rtErr("unexpected break/continue")
 	}
 	unspec("invoke %T", fn)
 	return nil, nil
@@ -1305,6 +1330,24 @@ func (in *Interp) host(s *gen.HostSpec, a []Value) (Value, *ErrVal) {
 		}
 		in.ev("hvs " + Render(a[0]) + " [" + strings.Join(parts, " ") + "]")
 		return int64(len(rest.E)), nil
+	case "hcb":
+		in.ev("hcb")
+		if _, err := in.invoke(a[0], nil); err != nil {
+			return nil, err
+		}
+		return nil, nil
+	case "heach":
+		l, ok := a[0].(*List)
+		if !ok {
+			unspec("heach of %T", a[0])
+		}
+		in.ev("heach " + strconv.Itoa(len(l.E)))
+		for _, el := range l.E {
+			if _, err := in.invoke(a[1], []Value{el}); err != nil {
+				return nil, err
+			}
+		}
+		return nil, nil
 	case "pg":
 		in.ev("pg " + Render(a[0]))
 		return a[0], nil
